@@ -254,6 +254,7 @@ def make_rep(scaf_name, n, op, facet, step=None, attached=False, twin=False, pre
             with NoTracing():
                 docenv.reblock(f.token_store, lf, bp, bs)
         with NoTracing():
+            docenv.warm(f)        # every attribute and view of every model was read once before the edit
             parent = sc.get_parent(f)
             raw = getattr(parent, sc.raw_attr)
             views = [(name, getattr(parent, name), pred, conv) for name, pred, conv in sc.views]
